@@ -305,8 +305,59 @@ def run(ctx, anchors=None):
              "each non-empty signature costs 50 weight units before the key-type dispatch; a negative budget fails the script",
              "tapscript signature budget: %s" % "; ".join(sorted(set(bad))[:3]))
 
+    # ---- R02.9 the BIP66 size window of an ECDSA signature with its hash-type byte: the strict-DER judge refuses sizes below 9
+    # and above 73 and nothing in between by size alone (8 bytes of framing + two one-byte integers + the hash type; 72 bytes of DER
+    # at most + the hash type). The window is read off the constants the size of the checked vector is compared with.
+    ctx.rule("R02.9", "IsValidSignatureEncoding accepts exactly the sizes 9..73 (DER plus the hash-type byte)")
+    ive = [g for g in fb.funcs.values() if g.name == "IsValidSignatureEncoding" and g.body is not None]
+    if not ive:
+        raise AnalysisBroken("R02.9: IsValidSignatureEncoding not found")
+    lo = hi = None
+    psig = ive[0].params[0]["d"]
+    for n in ive[0].nodes():
+        if n["k"] == "bin" and n.get("op") in ("<", "<=", ">", ">="):
+            for a_, b_, flip in ((n["lhs"], n["rhs"], False), (n["rhs"], n["lhs"], True)):
+                x = astq.expand(ive[0], a_)      # `const size_t sig_size = sig.size();` is the same operand
+                while x is not None and x.get("k") in ("cast", "paren"):
+                    x = x["e"]
+                o_ = x.get("obj") if x is not None and x.get("k") == "mcall" and x.get("n") == "size" else None
+                while o_ is not None and o_.get("k") in ("cast", "paren"):
+                    o_ = o_["e"]
+                k_ = astq.const_value(b_)
+                if k_ is None:      # a named constant (`static const size_t MAX_... = 73;`)
+                    b0 = b_
+                    while b0 is not None and b0.get("k") in ("cast", "paren"):
+                        b0 = b0["e"]
+                    if b0 is not None and b0.get("k") == "ref" and b0.get("dk") in ("global", "local"):
+                        v_ = fb.var(b0["n"], optional=True)
+                        k_ = v_.get("value") if v_ else None
+                        if k_ is None and b0.get("dk") == "local":
+                            k_ = astq.const_value(astq.single_defs(ive[0]).get(b0.get("d")))
+                if o_ is None or o_.get("k") != "ref" or o_.get("d") != psig or k_ is None:
+                    continue
+                par = ive[0].parent(n)
+                while par is not None and (par.get("k") in ("cast", "paren") or (par.get("k") == "bin" and par.get("op") == "||")):
+                    par = ive[0].parent(par)      # a disjunct of the refusing condition refuses just the same
+                if par is None or par.get("k") != "if" or not S.terminates(par["then"]):
+                    continue
+                op = {"<": ">", "<=": ">=", ">": "<", ">=": "<="}[n["op"]] if flip else n["op"]
+                # `size op K` refuses: the smallest / largest accepted size
+                if op == "<":
+                    lo = k_ if lo is None else max(lo, k_)
+                elif op == "<=":
+                    lo = k_ + 1 if lo is None else max(lo, k_ + 1)
+                elif op == ">":
+                    hi = k_ if hi is None else min(hi, k_)
+                elif op == ">=":
+                    hi = k_ - 1 if hi is None else min(hi, k_ - 1)
+    ctx.site(2)
+    ctx.inst((lo, hi) == (9, 73), "R02.9", "der-size-window", ive[0].loc(), "sizes below 9 and above 73 are refused, 9..73 go on to the structure checks",
+             "IsValidSignatureEncoding accepts the sizes %s..%s by size; BIP66 is 9..73 (the vector carries the hash-type byte): %s" %
+             (lo, hi, "a maximal 73-byte signature (33-byte R and S) is refused as non-DER" if hi is not None and hi < 73 else "signatures outside the window reach the byte-indexing checks"))
+
 
 MUTANTS = [
+    dict(name="der-window-without-the-hashtype-byte", file="script/interpreter.cpp", find="    if (sig.size() > 73) return false;", replace="    if (sig.size() > 72) return false;", expect=["R02.9:der-size-window"]),
     dict(name="strictenc-accepts-hybrid-keys", file="script/interpreter.cpp", find="    if (vchPubKey[0] == 0x04) {\n        if (vchPubKey.size() != CPubKey::SIZE) {", replace="    if (vchPubKey[0] == 0x04 || vchPubKey[0] == 0x06 || vchPubKey[0] == 0x07) {\n        if (vchPubKey.size() != CPubKey::SIZE) {", expect=["R02.8:pubkey-encoding:IsCompressedOrUncompressedPubKey"]),
     dict(name="strictenc-via-validsize", file="script/interpreter.cpp", find="bool static IsCompressedOrUncompressedPubKey(const valtype &vchPubKey) {\n", replace="bool static IsCompressedOrUncompressedPubKey(const valtype &vchPubKey) {\n    if (CPubKey::ValidSize(vchPubKey)) return true;\n", expect=["R02.8:pubkey-encoding:IsCompressedOrUncompressedPubKey"]),
     dict(name="legacy-sequence-not-blanked-for-none", file="script/interpreter.cpp", find="        if (nInput != nIn && (fHashSingle || fHashNone)) {", replace="        if (nInput != nIn && fHashSingle) {", expect=["R02.3:legacy-SerializeInput"]),
